@@ -306,6 +306,33 @@ pub fn run(args: &[String], stdin: &[u8]) -> Outcome {
     run_spec(&RunSpec { args: args.to_vec(), stdin: stdin.to_vec(), ..Default::default() }).0
 }
 
+/// `run`, and - for one input in four - a second run whose output sink accepts only a few bytes
+/// per call and answers `Interrupted` now and then (as a pipe or a terminal may): the result and
+/// every output byte must be the same. Err = they differ.
+pub fn run_any_sink(args: &[String], stdin: &[u8]) -> Result<Outcome, String> {
+    let o = run(args, stdin);
+    let h = stdin.iter().chain(args.iter().flat_map(|a| a.as_bytes().iter())).fold(0xcbf29ce484222325u64, |a, b| (a ^ *b as u64).wrapping_mul(0x100000001b3));
+    if h % 4 != 0 {
+        return Ok(o);
+    }
+    let short = [1usize, 2, 3, 7, 64][(h >> 8) as usize % 5];
+    let interrupt_every = [0usize, 0, 3, 5][(h >> 16) as usize % 4];
+    let (o2, _) = run_spec(&RunSpec { args: args.to_vec(), stdin: stdin.to_vec(), write_fault: Some(WriteFault { fail_at: usize::MAX, kind: io::ErrorKind::Other, short, interrupt_every, only_on_flush: false }), ..Default::default() });
+    if o2.res != o.res || o2.stdout != o.stdout {
+        return Err(format!(
+            "a sink that accepts at most {} bytes per write call{} changes the result: {} with {} output bytes instead of {} with {} bytes (args {:?})",
+            short,
+            if interrupt_every > 0 { format!(" and is interrupted on every {}th call", interrupt_every) } else { String::new() },
+            o2.res.short(),
+            o2.stdout.len(),
+            o.res.short(),
+            o.stdout.len(),
+            args
+        ));
+    }
+    Ok(o)
+}
+
 pub fn run_strs(args: &[&str], stdin: &[u8]) -> Outcome {
     let a: Vec<String> = args.iter().map(|s| s.to_string()).collect();
     run(&a, stdin)
